@@ -35,6 +35,8 @@ pub struct Case {
     pub reparse: Vec<u64>,
     /// additionally run the test through `try_iter_static`
     pub run_static: bool,
+    /// the static iteration happens before the dynamic schedule instead of after it
+    pub static_first: bool,
     /// after a row has been yielded by step j of an iterator, call `vars()` iff
     /// mix(seed, j) % den < num
     pub inspect: Option<(u64, u32, u32)>,
@@ -90,6 +92,7 @@ impl Case {
             .set("hash_seed", J::i(self.hash_seed))
             .set("reparse", J::arr(&self.reparse, |e| J::i(*e)))
             .set("run_static", J::Bool(self.run_static))
+            .set("static_first", J::Bool(self.static_first))
             .set(
                 "inspect",
                 match self.inspect {
@@ -158,6 +161,7 @@ impl Case {
             hash_seed: j.req("hash_seed")?.as_u64()?,
             reparse: u64s(j.req("reparse")?)?,
             run_static: j.req("run_static")?.as_bool()?,
+            static_first: j.get("static_first").map(|v| v.as_bool()).transpose()?.unwrap_or(false),
             inspect: match j.req("inspect")? {
                 J::Null => None,
                 a => {
